@@ -47,7 +47,53 @@ def plan(tier, seed):
     for lvl in ('dump', 'serialize', 'emit'):
         for i in range(4 if q else 5):
             specs.append({'kind': lvl, 'shard': i, 'n': 7000 if q else 60000, 'cext': 'plain'})
+    specs.append({'kind': 'boundary', 'shard': 0, 'n': 1, 'cext': 'plain'})
     return specs
+
+
+def boundary_case(ctx, marker_at, second, opts, pad_root):
+    """dump_all of documents sized so that a document marker ('---' / '...') written between them lies across a refill boundary
+    of a reader that is fed from a stream; what load_all reads from text and byte streams must be the n documents again."""
+    import io
+    for dname in yamlapi.loaders(['SafeDumper', 'CSafeDumper']):
+        D = getattr(yaml, dname)
+        o = dict(opts, width=10 ** 7)
+        mk = (lambda n: 'p' * n) if pad_root == 'scalar' else (lambda n: ['p' * n])
+        base = yaml.dump_all([mk(0), second], Dumper=D, **o)
+        import re
+        mm = re.search(r'(?m)^(---|\.\.\.)', base[1:])          # the first marker after the beginning of the pad document
+        if mm is None:
+            ctx.stat('boundary_no_marker')
+            continue
+        pos0 = mm.start() + 1
+        n = marker_at - pos0
+        docs = [mk(n), second, 'tail']
+        text = yaml.dump_all(docs, Dumper=D, **o)
+        case = {'level': 'boundary', 'marker_at': marker_at, 'second': second, 'opts': opts, 'pad_root': pad_root, 'D': dname}
+        ctx.crumb(case)
+        ctx.case(core.h64('boundary', marker_at, repr(second), repr(opts), pad_root, dname), True, ['boundary'])
+        for lname in yamlapi.loaders(['SafeLoader', 'CSafeLoader']):
+            for form in ('text_stream', 'byte_stream', 'str'):
+                src = io.StringIO(text) if form == 'text_stream' else (io.BytesIO(text.encode('utf-8')) if form == 'byte_stream' else text)
+                try:
+                    got = list(yaml.load_all(src, Loader=getattr(yaml, lname)))
+                except yaml.YAMLError as e:
+                    ctx.violation(dict(case, L=lname, form=form), {'what': 'dump_all output read from a stream is rejected', 'exc': yamlapi.exc_sig(e), 'marker_offset': text.find('---', 5)}, None)
+                    continue
+                ctx.stat('boundary_readbacks')
+                if got != docs:
+                    ctx.violation(dict(case, L=lname, form=form), {'what': 'dump_all output read from a stream gives other documents', 'read': len(got), 'written': len(docs),
+                                                                   'first_diff': repr(next(((a, b) for a, b in zip(got, docs) if a != b), None))[:200]}, None)
+
+
+def boundary_cases(ctx):
+    for k in (1, 2, 3, 4):
+        for j in range(-1, 5):
+            at = 4096 * k - j
+            for second in ('b', ['x', 'y'], {'k': 'v'}, 'two words', ''):
+                for opts in ({'explicit_start': True}, {'explicit_end': True}, {}, {'explicit_start': True, 'line_break': '\r\n'}, {'explicit_end': True, 'explicit_start': True}):
+                    for pad_root in ('scalar', 'list'):
+                        boundary_case(ctx, at, second, opts, pad_root)
 
 
 def gen_opts(r, keys=None):
@@ -199,6 +245,26 @@ def check_dump(docs, opts, ctx, case, only=None):
                 if m:
                     ctx.violation(who, {'what': 'document %d differs after the round trip' % k, 'diff': m[:300], 'text': text[:800]}, classify_value(dname, opts, a, b))
                     break
+        # the same documents handed over lazily: each value exists only while it is being dumped (its address is free for
+        # the next one), or one record object is refilled for every document - the text must not depend on that
+        try:
+            lazy = yaml.dump_all((build_value(d) for d in docs), Dumper=getattr(yaml, dname), **opts)
+            ctx.stat('lazy_dump_checks')
+            if lazy != text:
+                ctx.violation(dict(case, D=dname), {'what': 'dump_all of a generator of short-lived documents differs from dump_all of the list', 'list_text': text[:500], 'lazy_text': lazy[:500]}, None)
+            if len(values) > 1 and all(type(v) is dict for v in values):
+                def refill():
+                    rec = {}
+                    for d in docs:
+                        rec.clear()
+                        rec.update(build_value(d))
+                        yield rec
+                re_text = yaml.dump_all(refill(), Dumper=getattr(yaml, dname), **opts)
+                ctx.stat('refill_dump_checks')
+                if re_text != text:
+                    ctx.violation(dict(case, D=dname), {'what': 'dump_all of one refilled record object differs from dump_all of separate documents', 'list_text': text[:500], 'refill_text': re_text[:500]}, None)
+        except yaml.YAMLError as e:
+            ctx.violation(dict(case, D=dname), {'what': 'dump_all rejected lazily produced documents', 'exc': yamlapi.exc_sig(e)}, None)
         o2 = {k: v for k, v in opts.items()}
         prefix_checks(lambda ds, st: yaml.dump_all([build_value(d) for d in ds], st, Dumper=getattr(yaml, dname), **o2), docs, ctx, case, dname)
 
@@ -425,6 +491,9 @@ def check_emit(docs, opts, ctx, case, only=None):
 
 
 def run(spec, ctx):
+    if spec['kind'] == 'boundary':
+        boundary_cases(ctx)
+        return
     r = random.Random(core.h64('C12', spec['seed'], spec['kind'], spec['shard']))
     fn = {'dump': dump_case, 'serialize': serialize_case, 'emit': emit_case}[spec['kind']]
     for i in range(spec['n']):
@@ -433,6 +502,9 @@ def run(spec, ctx):
 
 def replay(case, ctx):
     ctx.case(core.h64(repr(case)), True)
+    if case['level'] == 'boundary':
+        boundary_case(ctx, case['marker_at'], case['second'], case['opts'], case['pad_root'])
+        return
     only = (case['D'], case['L']) if case.get('D') and case.get('L') else None
     base = {k: case[k] for k in ('level', 'docs', 'opts', 'share') if k in case}
     if case['level'] == 'dump':
